@@ -12,9 +12,12 @@ fn main() {
     r.consume(|d| { let _ = d.count(); });
     r.push(-3.0); r.push(-4.0);
     r.consume(|d| { let _ = d.count(); });
+    // values pushed completely before the threads start (role "consume <n>")
+    let prefilled: usize = plan.threads.iter().find(|t| t.1.starts_with("consume")).and_then(|t| t.1.split_whitespace().nth(1).map(|x| x.parse().unwrap_or(0))).unwrap_or(0);
+    let mut tags = vec![];
+    for i in 0..prefilled { let t = 50.0 + i as f64; r.push(t); tags.push(t); }
     install(plan.sched.clone());
     let yields: Arc<Mutex<Vec<(usize, f64)>>> = Arc::new(Mutex::new(vec![]));
-    let mut tags = vec![];
     let mut hs = vec![];
     for (tid, role) in plan.threads.clone() {
         let r = r.clone();
